@@ -4,6 +4,7 @@ mod c01;
 mod c02;
 mod c03;
 mod c04;
+mod c05;
 mod c09;
 mod c10;
 mod c11;
@@ -31,6 +32,7 @@ fn registry(id: &str) -> Option<Box<dyn Check>> {
         "C02" => Some(Box::new(c02::C02)),
         "C03" => Some(Box::new(c03::C03)),
         "C04" => Some(Box::new(c04::C04::new())),
+        "C05" => Some(Box::new(c05::C05::new())),
         "C09" => Some(Box::new(c09::C09::new())),
         "C10" => Some(Box::new(c10::C10)),
         "C11" => Some(Box::new(c11::C11)),
@@ -94,6 +96,9 @@ fn main() {
         }
         println!("{}", set.len());
         return;
+    }
+    if args[1] == "c05-child" {
+        std::process::exit(c05::child_main(&args[2]));
     }
     if args[1] == "scale" {
         // vcheck scale <family> <n>: run every entry point once on one scaling-family document
